@@ -91,8 +91,15 @@ func (e *Engine) exec(fr *Frame, blk *ssa.BasicBlock, idx int, st *State, k func
 		case *ssa.DebugRef:
 			continue
 		case *ssa.Alloc:
-			e.nextCell++
 			t := x.Type().(*types.Pointer).Elem()
+			if _, isStruct := under(t).(*types.Struct); isStruct && x.Heap && !e.onlyLocalUse(x) {
+				// an escaping struct allocation is a real heap object with zeroed fields
+				ref := e.freshObj(st, "new$"+typeName(t))
+				e.storeHeap(st, ref, typeName(t), t, e.zero(t))
+				fr.Vals[x] = ref
+				continue
+			}
+			e.nextCell++
 			cell := &Cell{ID: e.nextCell, Name: x.Comment, T: t}
 			st.Cells[cell] = e.zero(t)
 			fr.Vals[x] = &PtrV{Kind: PCell, Cell: cell, T: t}
@@ -919,4 +926,40 @@ func (e *Engine) ifConvert(fr *Frame, blk *ssa.BasicBlock, st *State, cond *smt.
 	}
 	e.Stats["if-conversions"]++
 	return true
+}
+
+// onlyLocalUse: the allocation's address is used only for field access, loads and
+// stores through it (so an executor-level cell models it exactly).
+func (e *Engine) onlyLocalUse(a *ssa.Alloc) bool {
+	var ok func(v ssa.Value, depth int) bool
+	ok = func(v ssa.Value, depth int) bool {
+		if depth > 6 {
+			return false
+		}
+		for _, r := range *v.Referrers() {
+			switch x := r.(type) {
+			case *ssa.DebugRef:
+			case *ssa.UnOp:
+				if x.Op != token.MUL {
+					return false
+				}
+			case *ssa.Store:
+				if x.Addr != v {
+					return false // the pointer itself is stored somewhere
+				}
+			case *ssa.FieldAddr:
+				if !ok(x, depth+1) {
+					return false
+				}
+			case *ssa.IndexAddr:
+				if !ok(x, depth+1) {
+					return false
+				}
+			default:
+				return false
+			}
+		}
+		return true
+	}
+	return ok(a, 0)
 }
